@@ -177,7 +177,7 @@ pub struct FileEdit {
     pub b: u8,
 }
 
-pub const EDIT_NAMES: [&str; 24] = [
+pub const EDIT_NAMES: [&str; 25] = [
     "pow_bits",
     "n_queries",
     "log_n_cosets",
@@ -202,6 +202,7 @@ pub const EDIT_NAMES: [&str; 24] = [
     "annotation_value_not_canonical",
     "dynamic_param_renamed",
     "dynamic_structural_param_renamed",
+    "annotation_line_duplicated",
 ];
 
 fn p2v_lines(ann: &[Value]) -> Vec<usize> {
@@ -311,6 +312,25 @@ pub fn apply_edit(j: &mut Value, e: &FileEdit) -> Option<&'static str> {
                     ann[li] = json!(format!("{}{}", ra, pb));
                     ann[lj] = json!(format!("{}{}", rb, pa));
                 }
+            }
+        }
+        24 => {
+            // one P->V line recorded twice (right after itself, or at the end of the stream): a second
+            // commitment / nonce has no slot in the verifier's proof; a second value of a vector is one more element
+            let ann = j["annotations"].as_array_mut()?;
+            let lines = p2v_lines(ann);
+            if lines.is_empty() {
+                return None;
+            }
+            // single-slot lines are few among hundreds: pick them half of the time
+            let singles: Vec<usize> = lines.iter().cloned().filter(|i| ann[*i].as_str().map(|s| s.contains("Commit on Trace") || s.contains("Proof of Work")).unwrap_or(false)).collect();
+            let li = if e.b % 2 == 0 && !singles.is_empty() { singles[pick(e.a, singles.len())] } else { lines[pick(e.a, lines.len())] };
+            let l = ann[li].clone();
+            if e.b % 4 < 2 {
+                ann.insert(li + 1, l);
+            } else {
+                let last = *lines.last()?;
+                ann.insert(last + 1, l);
             }
         }
         22 | 23 => {
@@ -565,4 +585,4 @@ pub fn replay(ctx: &Ctx, v: &Value) -> Result<Outcome, String> {
     Ok(check(&e, &c))
 }
 
-pub const RULE: &str = "(a) the 25 shipped files: parse + TransformTo must succeed and equal, field for field, what the independent loader reads (loader cross-checked against proof_hex); (b) generated Stone-shaped files (any of the 7 layouts incl. dynamic with all 340 parameters, 1..4 FRI steps and, in 1 case of 6, 5..20 steps of 1 so that layer numbers have two digits, vectors of 0..8 elements, PRF values) rendered by the harness's writer: same equality; (c) shipped (3%) or generated files with 1..2 grammar-level edits out of 22 classes (PoW bits incl. 255/256, query count, cosets, step list empty/long/huge, last-layer bound non-power/0/huge, n_steps 0/non-power/huge, rc bounds, unknown/removed segment, memory value bad hex (incl. sign and '_' separators) / not canonical / page != 0 / huge address, unknown layout, dynamic parameter removed / added to a static layout, annotation value changed / bad hex (incl. sign and '_' separators) / not canonical, line removed, two lines of one label swapped, nonce 0 / 2^64 / 2^64-1, a dynamic parameter renamed with the count unchanged). Oracle: loader says X => parser Ok must equal X (parser Err is tolerated for edited files: stricter is fine); loader says malformed/unrepresentable => parser must return Err; a panic is always a violation. Non-trivial = every judged file; classes = base x edit classes x outcome; distinct by case hash";
+pub const RULE: &str = "(a) the 25 shipped files: parse + TransformTo must succeed and equal, field for field, what the independent loader reads (loader cross-checked against proof_hex); (b) generated Stone-shaped files (any of the 7 layouts incl. dynamic with all 340 parameters, 1..4 FRI steps and, in 1 case of 6, 5..20 steps of 1 so that layer numbers have two digits, vectors of 0..8 elements, PRF values) rendered by the harness's writer: same equality; (c) shipped (3%) or generated files with 1..2 grammar-level edits out of 25 classes (PoW bits incl. 255/256, query count, cosets, step list empty/long/huge, last-layer bound non-power/0/huge, n_steps 0/non-power/huge, rc bounds, unknown/removed segment, memory value bad hex (incl. sign and '_' separators) / not canonical / page != 0 / huge address, unknown layout, dynamic parameter removed / added to a static layout, annotation value changed / bad hex (incl. sign and '_' separators) / not canonical, line removed, line recorded twice (single-slot commitments and the nonce half of the time), two lines of one label swapped, nonce 0 / 2^64 / 2^64-1, a dynamic parameter renamed with the count unchanged). Oracle: loader says X => parser Ok must equal X (parser Err is tolerated for edited files: stricter is fine); loader says malformed/unrepresentable => parser must return Err; a panic is always a violation. Non-trivial = every judged file; classes = base x edit classes x outcome; distinct by case hash";
